@@ -1,6 +1,7 @@
 """Text-level obligations that execute the REAL lexer and parser on concrete texts; the solver (CrossHair) only
 enumerates the finite index space (program, rewrite, position), the bodies run natively.  They complement the
 symbolic engines where behaviour lives in lexer rule *functions* over the raw text (bracket depth, line counting)."""
+import re
 from sqv import hlib
 from smartquery import SqParser, rules
 from smartquery.exceptions import ParserError
@@ -28,6 +29,8 @@ PROGRAMS = [
     "\n\nx = 10\ny = 20\n\nx + y\n",
     "r = (a not in b)\nf(x not in [1, 2], [y not in z])\nq = {'k': p not in q,\n 'j': not m, 'i': n in o}\nr if a not in r else (not q)",
     "g = x => x if x > 0 else 0\nh = (a, b) => a if a else b\nl | map(v => v if v else 1) | filter(w => not w)\ng(1) + h(2, 3)",
+    "d = {'a': x, 'a': y, 1: p, 1.0: q, True: r, None: 1, None: 2}\ne = {k: 1, k: 2}\nf({'z': 0, \"z\": 0})\nd",
+    "x = 10\n-x\nt = a\n[0]\nu = f\n(1)\nv = u\nnot v\nw = 7.5\n- 1",
 ]
 
 
@@ -277,6 +280,7 @@ def layout_rewrite(ri: int, pos: int) -> None:
 STRAY = [')', ']', 'stray', '=>', '}', '1.5', ':', '$', '"', 'for', '))', '\x00', '0', "''", ';', '\n', '.', ',', 'not', 'if', '%', '\\', '0.0', '==', '\r\n', '#']
 _BS = chr(92)
 # string literals with backslash sequences that are NOT escapes of the language (kept verbatim by the published lexer)
+STRAY += ['\ufb01le', '\u00b5', '\uff58\uff59', '%\u00b5.rate%', 'Stra\u00dfe']
 STRAY += ['"C:' + _BS + 'users' + _BS + 'me"', '"' + _BS + 'x4"', '"' + _BS + 'N{nope}"', "'" + _BS + 'U00110000 ' + _BS + "u12'", '"' + _BS + '777' + _BS + '8"', 'r"' + _BS + 'x"']
 
 
@@ -345,7 +349,7 @@ def _damage(pi, si, pos, sep, trunc, pre_list, cached, class_only, soundness=Fal
     def recording(self):
         t = orig_token(self)
         if t is not None:
-            raw.append((t.type, t.value, t.lexpos))
+            raw.append((t.type, t.value, t.lexpos, self.lexpos))
         return t
     P.yacc.errorfunc = rec
     cls.token = recording
@@ -386,6 +390,10 @@ def _damage(pi, si, pos, sep, trunc, pre_list, cached, class_only, soundness=Fal
                     text, want[1], want[2], 'end of input' if tok is None else '%r at offset %d' % (tok.value, tok.lexpos))
         if k is not None and k >= len(raw) and tok is not None:
             return "%r: every token has a continuation (the text ends too early), but the error reports %r at offset %d" % (text, tok.value, tok.lexpos)
+        if tok is not None and k is not None and k < len(raw):
+            src = text[raw[k][2]:raw[k][3]]
+            if re.fullmatch(r'%[^%]*%|[^\W\d]\w*', src) and src not in res[1]:
+                return "%r: the offending token is written %r, but the message %r does not show it" % (text, src, res[1])
         if tok is None:
             if 'end of input' not in res[1].lower():
                 return "error at the very end of %r is not reported as unexpected end of input: %s" % (text, res[1])
@@ -400,7 +408,7 @@ def _damage(pi, si, pos, sep, trunc, pre_list, cached, class_only, soundness=Fal
 
 def error_line(si: int, pos: int, sep: int, trunc: bool, pre_list: bool = False, cached: bool = False) -> None:
     """
-    pre: 0 <= si < 32 and pos == 0 and 0 <= sep <= 2
+    pre: 0 <= si < 37 and pos == 0 and 0 <= sep <= 2
     post: True
     """
     # a valid program made invalid by a stray token at a token boundary (or truncated there): the message names the
@@ -411,7 +419,7 @@ def error_line(si: int, pos: int, sep: int, trunc: bool, pre_list: bool = False,
     pi = hlib.PARAM["program"]
     class_only = bool(hlib.PARAM.get("class_only"))
     soundness = bool(hlib.PARAM.get("soundness"))
-    si, sep = hlib.concrete(si, 0, 31), hlib.concrete(sep, 0, 2)
+    si, sep = hlib.concrete(si, 0, 36), hlib.concrete(sep, 0, 2)
     trunc = True if trunc else False
     pre_list = True if pre_list else False
     cached = True if cached else False
